@@ -154,7 +154,7 @@ def run(ctx: core.Ctx):
         "replays": len(idx), "replays_agree": sum(1 for v in agree.values() if v),
     }
     if ctx.tier == "thorough":
-        ctx.leanchecker(["GHEVerif.Props.C01", "GHEVerif.Lemmas.Search", "GHEVerif.Lemmas.SearchNested", "GHEVerif.Lemmas.SearchRowWise"])
+        ctx.leanchecker(["GHEVerif.Props.C01", "GHEVerif.Lemmas.Search", "GHEVerif.Lemmas.SearchNested", "GHEVerif.Lemmas.SearchRowWise", "GHEVerif.Lemmas.Pipeline", "GHEVerif.Model.Pipeline"])
 
 
 def _real_nested(c):
